@@ -443,6 +443,10 @@ def _main(prop, args, t0):
             from . import envs
 
             vs = envs.replay_case(art["case"])  # E1-M case: self-contained (probe source, entry mode, earlier parse)
+        elif isinstance(art["case"], dict) and "environment" in art["case"]:
+            from . import e1
+
+            vs = e1.replay_model_case(art["case"], "environment:" + art["case"]["environment"])  # E1-M, model-equality form
         else:
             vs = prop.replay(art["case"])
         if vs:
